@@ -45,6 +45,9 @@ pub fn c17_ext(stream: &[(Ev, Vec<Act>)], n_machines: usize) -> (Fired, Option<V
     let mut firings = 0u64;
     let mut last = 0u64;
     let mut pbb: Vec<bool> = vec![false; stream.len()];
+    // a zero-duration BlockOutgoing was issued on this side: its BlockingEnd is reported before its BlockingBegin
+    // (known finding of C16), so a machine reacting to that BlockingEnd re-issues an action "before" the begin
+    let mut zero_dur_block = false;
     for (i, (e, acts)) in stream.iter().enumerate() {
         let now = e.t;
         pbb[i] = pend.iter().flatten().any(|p| !p.pad && p.bypass && p.due > now);
@@ -80,7 +83,7 @@ pub fn c17_ext(stream: &[(Ev, Vec<Act>)], n_machines: usize) -> (Fired, Option<V
                             Some(p) => format!("the most recent action for the machine is {} issued at {}ns due at {}ns", if p.pad { "SendPadding" } else { "BlockOutgoing" }, p.issued, p.due),
                             None => "no action is pending for the machine (never issued, already fired, cancelled or superseded)".to_string(),
                         };
-                        return (fired, Some(Viol { sig: format!("C17:spurious-{}", if pad { "PaddingSent" } else { "BlockingBegin" }), msg: format!("{} for machine {m} reported at {}ns, but {why}", if pad { "PaddingSent" } else { "BlockingBegin" }, now), at: i }), firings, pbb);
+                        return (fired, Some(Viol { sig: format!("C17:spurious-{}{}", if pad { "PaddingSent" } else { "BlockingBegin" }, if zero_dur_block && !pad { "+zero-duration-block" } else { "" }), msg: format!("{} for machine {m} reported at {}ns, but {why}", if pad { "PaddingSent" } else { "BlockingBegin" }, now), at: i }), firings, pbb);
                     }
                     Some(p) => {
                         firings += 1;
@@ -97,6 +100,9 @@ pub fn c17_ext(stream: &[(Ev, Vec<Act>)], n_machines: usize) -> (Fired, Option<V
                     pend[*m] = Some(Pend { pad: true, due: now + timeout * US, dur: 0, bypass: *bypass, replace: *replace, issued: now });
                 }
                 Act::Block { m, timeout, duration, bypass, replace } => {
+                    if *duration == 0 {
+                        zero_dur_block = true;
+                    }
                     supersede(&mut pend[*m], &mut grace[*m], now);
                     pend[*m] = Some(Pend { pad: false, due: now + timeout * US, dur: duration * US, bypass: *bypass, replace: *replace, issued: now });
                 }
@@ -111,12 +117,12 @@ pub fn c17_ext(stream: &[(Ev, Vec<Act>)], n_machines: usize) -> (Fired, Option<V
     }
     (fired, None, firings, pbb)
 }
-fn supersede(p: &mut Option<Pend>, grace: &mut Vec<Pend>, now: u64) {
-    if let Some(old) = p.take() {
-        if old.due == now {
-            grace.push(old);
-        }
-    }
+/// A newer action or a cancel supersedes the pending one, which then never fires: a firing *reported after*
+/// the superseding event (in trace order) is a violation, also when both carry the same time stamp. (The
+/// scheduler fires and reports an action without letting other events of that instant in between; the
+/// same-instant tolerance of section 5 was tried and never needed on the unchanged tree - see DESIGN 10.2.)
+fn supersede(p: &mut Option<Pend>, _grace: &mut Vec<Pend>, _now: u64) {
+    let _ = p.take();
 }
 
 /// C18 — internal timers.
